@@ -188,3 +188,89 @@ def styleTable : List (String × CaseStyle) :=
 theorem style_table : ∀ p ∈ styleTable, parseStyle p.1 = some p.2 := by decide
 
 end Strum
+
+namespace Strum
+
+/-! ### the renaming keeps the identifier's letters and digits, in order, up to case -/
+
+theorem specGo_flatten (rest : Bytes) : ∀ (p : Option Nat) (cur : Bytes), (specGo p cur rest).flatten = cur ++ rest := by
+  induction rest with
+  | nil =>
+    intro p cur
+    simp only [specGo]
+    split
+    · next h => simp at h; simp [h]
+    · simp
+  | cons c r ih =>
+    intro p cur
+    rw [specGo_cons]
+    split
+    · simp [ih]
+    · simp [ih]
+
+theorem splitNonAlnum_flatten (s : Bytes) : ∀ cur : Bytes, (splitNonAlnum cur s).flatten = cur ++ s.filter isAlnum := by
+  induction s with
+  | nil => intro cur; simp [splitNonAlnum]
+  | cons c cs ih =>
+    intro cur
+    simp only [splitNonAlnum]
+    split
+    · next h => simp [ih, h]
+    · next h => simp [ih, h]
+
+/-- the words, concatenated, are exactly the identifier's alphanumeric characters in order -/
+theorem specWords_flatten (id : Bytes) : (specWords id).flatten = id.filter isAlnum := by
+  unfold specWords
+  have h1 : ∀ l : List Bytes, (l.flatMap (specGo none [])).flatten = l.flatten := by
+    intro l
+    induction l with
+    | nil => rfl
+    | cons seg rest ih => simp [List.flatMap_cons, specGo_flatten, ih]
+  rw [h1, splitNonAlnum_flatten]; simp
+
+theorem asciiLower_lower (b : Nat) : asciiLower (asciiLower b) = asciiLower b := asciiLower_idem b
+
+theorem lowerAll_fold (w : Bytes) : (lowerAll w).map asciiLower = w.map asciiLower := by
+  simp [lowerAll, asciiLower_idem]
+theorem upperAll_fold (w : Bytes) : (upperAll w).map asciiLower = w.map asciiLower := by
+  simp [upperAll, asciiLower_upper]
+theorem capitalize_fold (w : Bytes) : (capitalize w).map asciiLower = w.map asciiLower := by
+  cases w with
+  | nil => rfl
+  | cons c cs => simp [capitalize, lowerAll, asciiLower_upper, asciiLower_idem]
+
+theorem flatten_map_fold (f : Bytes → Bytes) (hf : ∀ w, (f w).map asciiLower = w.map asciiLower) (ws : List Bytes) :
+    ((ws.map f).flatten).map asciiLower = (ws.flatten).map asciiLower := by
+  induction ws with
+  | nil => rfl
+  | cons w ws ih => simp [List.map_append, hf, ih]
+
+/-- **PascalCase keeps every letter and digit of the identifier, in order, only changing case**
+    (the separated styles additionally insert their separator between words, see `convert_case_spec`). -/
+theorem pascal_letters_preserved (id : Bytes) :
+    (convertCase (some .pascal) id).map asciiLower = (id.filter isAlnum).map asciiLower := by
+  rw [convert_case_spec]
+  simp only [styleSpec]
+  rw [flatten_map_fold capitalize capitalize_fold, specWords_flatten]
+
+theorem intercalate_fold (sep : Bytes) (ws : List Bytes) :
+    (intercalateBytes sep ws).filter (fun b => !sep.contains b) = (ws.flatten).filter (fun b => !sep.contains b) := by
+  induction ws with
+  | nil => rfl
+  | cons w ws ih =>
+    cases ws with
+    | nil => simp [intercalateBytes]
+    | cons w2 ws2 =>
+      simp only [intercalateBytes, List.filter_append, List.flatten_cons] at ih ⊢
+      rw [ih]
+      simp
+
+/-- **snake_case: removing the separators gives back the identifier's letters and digits, lower-cased** -/
+theorem snake_letters_preserved (id : Bytes) :
+    (convertCase (some .snake) id).filter (fun b => !([95] : Bytes).contains b) =
+      ((specWords id).map lowerAll).flatten.filter (fun b => !([95] : Bytes).contains b) := by
+  rw [convert_case_spec]
+  simp only [styleSpec]
+  exact intercalate_fold [95] _
+
+end Strum
